@@ -958,6 +958,31 @@ func (e *Env) evalCall(n *ast.CallExpr) Val {
 			return e.fail("offset of non-slice")
 		}
 		return intVal(v.Off, nil)
+	case "whole":
+		// whole(p): p is null or points to a whole allocated object (not into the middle of one)
+		v := arg(0)
+		ref := v.S
+		if v.K == KIface {
+			ref = v.Pay
+		}
+		return boolVal(sOr(sEq(ref, "null"), sx("(_ is obj)", ref)))
+	case "outside":
+		// outside(x, p): the storage of slice/pointer x is not inside the object p points to
+		if !need(2) {
+			return boolVal("false")
+		}
+		x, p := arg(0), arg(1)
+		xr := x.S
+		if x.K == KSlice {
+			xr = x.Bas
+		} else if x.K == KIface {
+			xr = x.Pay
+		}
+		pr := p.S
+		if p.K == KIface {
+			pr = p.Pay
+		}
+		return boolVal(sNot(sx("withineq", xr, pr)))
 	case "unchanged":
 		var parts []string
 		for _, a := range n.Args {
